@@ -44,7 +44,8 @@ DIRECTED = [
 
 
 def regen_clisrc():
-    from translate import clisrc
+    from translate import clisrc, cliresolve
+    cliresolve.generate()       # CmGen/CliResolve.lean: resolve_variable, its call sites and the pre-pass of main (CmProps/C08resolve.lean)
     clisrc.generate()           # CmGen/CliSrc.lean: path handling, target ratio, dispatch literals of cli/main.py as they read now (CmProps/C08src.lean)
 
 
@@ -52,6 +53,8 @@ def check(run):
     run.proof = proof_status("C08", regenerate=regen_clisrc)
     from translate import clisrc as _cs
     run.extra["source_translation"] = _cs.summary()
+    from translate import cliresolve as _cr
+    run.extra["source_translation_resolve"] = _cr.summary()
     q = run.quick()
     repo_import()
     from cm_colors import ColorPair
